@@ -609,13 +609,22 @@ func strRemoveSuffix(s *scope, args []pyObject) pyObject {
 func strFind(s *scope, args []pyObject) pyObject {
 	self := args[0].(pyString)
 	needle := args[1].(pyString)
-	return newPyInt(strings.Index(string(self), string(needle)))
+	return newPyInt(charIndex(string(self), strings.Index(string(self), string(needle))))
+}
+
+// charIndex converts a byte offset into s to the index of that character, which is what len(), indexing and
+// slicing count in.
+func charIndex(s string, offset int) int {
+	if offset <= 0 {
+		return offset
+	}
+	return utf8.RuneCountInString(s[:offset])
 }
 
 func strRFind(s *scope, args []pyObject) pyObject {
 	self := args[0].(pyString)
 	needle := args[1].(pyString)
-	return newPyInt(strings.LastIndex(string(self), string(needle)))
+	return newPyInt(charIndex(string(self), strings.LastIndex(string(self), string(needle))))
 }
 
 func strFormat(s *scope, args []pyObject) pyObject {
